@@ -40,12 +40,17 @@ def _alarm(*a):
 
 
 def guarded(f, secs=10.0):
-    """Run f under an alarm: a sampler that never accepts is reported, not waited for."""
+    """Run f under an alarm: a sampler that never accepts is reported, not waited for.  The limit is on the CPU time the call
+    itself consumes (a process that is merely not scheduled on a busy machine does not run into it); a generous wall-clock
+    limit stands behind it."""
+    signal.signal(signal.SIGVTALRM, _alarm)
     signal.signal(signal.SIGALRM, _alarm)
-    signal.setitimer(signal.ITIMER_REAL, secs)
+    signal.setitimer(signal.ITIMER_VIRTUAL, secs)
+    signal.setitimer(signal.ITIMER_REAL, max(120.0, 30 * secs))
     try:
         return f()
     finally:
+        signal.setitimer(signal.ITIMER_VIRTUAL, 0)
         signal.setitimer(signal.ITIMER_REAL, 0)
 
 
